@@ -80,6 +80,7 @@ class Ledger(Monitor):
         self.unhandled = []  # execs whose failure no transition handled
         self.fail_cmds = []  # execs that ran a fail command
         self.pubs = []  # (task, transition, var, value, racy) of every publish the model evaluated
+        self.wvals = {}  # writer id -> value written
         self.deadends = []  # executions whose task has transitions but none was satisfied
         self.stopped = False  # ledger gives up justification after something it cannot model
         self.stats = dict(execs=0, decided_true=0, decided_false=0, join_arrivals=0, join_fired=0, retried=0,
@@ -598,6 +599,7 @@ class Ledger(Monitor):
                         racy = any(ectx[sv].racy for sv in conds.val_vars(spec) if sv in ectx)
                         ectx[var] = Entry(val, prev + ((e.eid, tr.idx, var),), racy)
                         self.pubs.append((e.task, tr.idx, var, val, racy))
+                        self.wvals[(e.eid, tr.idx, var)] = val
                 except (conds.CondError, KeyError, TypeError):
                     self.stats["undecidable"] += 1
                     self.stopped = True
@@ -705,6 +707,7 @@ class Ledger(Monitor):
         if not terms:
             return None, None, None
         vals, racy, alts = {}, set(), {}
+        self.out_entries = {}
         vars_ = []
         for c in terms:
             for v in c:
@@ -723,6 +726,7 @@ class Ledger(Monitor):
                 if en.writer not in writers:
                     writers.append(en.writer)
             vals[v] = maximal[-1].value
+            self.out_entries[v] = maximal[-1]
             alts[v] = [en.value for en in maximal]
             if len(writers) > 1 or any(en.racy for en in maximal):
                 racy.add(v)
